@@ -409,12 +409,22 @@ def run(ck, repo: Repo, tier: str):
     nf = NF(repo, inline_depth=3)
     for group in (r1_gae, r2_nstep, r3_rtg, r4_callsites, r5_shapes, r5_encoder, r6_env_index):
         ck.guard(group, ck, repo, nf)
-    # mrq_loss uses both results of the n-step return in order
+    # mrq_loss hands the sampled rewards / terminations / gamma to the n-step return (binding by the callee's signature)
     q = "rl_blox.algorithm.mrq.mrq_loss"
     fn = repo.func(q)
-    ok = any(isinstance(n, ast.Assign) and isinstance(n.targets[0], ast.Tuple) and [dotted(x) for x in n.targets[0].elts] == ["n_step_return", "discount"] and isinstance(n.value, ast.Call)
-             and dotted(n.value.func) == "discounted_n_step_return" and [dotted(a) for a in n.value.args] == ["reward", "terminated", "gamma"] for n in ast.walk(fn))
-    ck.ob("R2-n-step", q, "call-roles", ok, "n_step_return, discount = discounted_n_step_return(reward, terminated, gamma)", "" if ok else "the critic target must use (return, residual discount) of the sampled rewards and terminations", loc(fn._module, fn))
+    rq = "rl_blox.blox.return_estimates.discounted_n_step_return"
+    rfn = repo.func(rq)
+    calls = [c for c in ast.walk(fn) if isinstance(c, ast.Call) and isinstance(c.func, (ast.Name, ast.Attribute)) and repo.resolve_expr(fn._module, c.func) == rq]
+    if len(calls) != 1:
+        raise AnalysisError(f"{q}: expected one call of discounted_n_step_return, found {len(calls)}")
+    b = bind_call(rfn, calls[0])
+    cfgq = nf.cfg_of(fn)
+    scq = Scope(cfgq, fn._module, {p: Poly.atom(p, {p}, {p}) for p in param_names(fn)}, q)
+    atq = cfgq.node_of(calls[0]).id
+    got = {k: (nf.poly(v, scq, atq).canon() if v is not None and not isinstance(v, list) else None) for k, v in b.items()}
+    pr = positional_params(rfn)
+    ok = len(pr) >= 3 and got.get(pr[0]) in ("reward", "batch.reward", "batch[2]") and got.get(pr[1]) in ("terminated", "batch.terminated", "batch[4]") and got.get(pr[2]) == "gamma"
+    ck.ob("R2-n-step", q, "call-roles", ok, f"discounted_n_step_return({', '.join(f'{k}={v}' for k, v in got.items())})", "" if ok else "the critic target must use the n-step return of the sampled rewards and terminations with the configured gamma", loc(fn._module, calls[0]))
 
 
 _G, _R, _RE, _E, _A2, _P = "rl_blox/blox/gae.py", "rl_blox/blox/return_estimates.py", "rl_blox/algorithm/reinforce.py", "rl_blox/blox/embedding/model_based_encoder.py", "rl_blox/algorithm/a2c.py", "rl_blox/algorithm/ppo.py"
